@@ -510,7 +510,7 @@ func opName(op string) string {
 func churnPool(sizes ...int) {
 	var held [][]byte
 	for _, k := range sizes {
-		if k > 0 {
+		for r := 0; k > 0 && r < 3; r++ { // several at once: sync.Pool returns its private slot first
 			b := bsPool.Get(k)
 			full := b[:cap(b)]
 			for i := range full {
